@@ -60,15 +60,17 @@ def _bound_defaults(obj, depth=0, seen=None):
     return out
 
 
-def snapshot(obj, dom_space, Pq, pspace, full):
+def snapshot(obj, dom_space, Pq, pspace, full, fixed=()):
+    """Observable state of a domain object: declared needs, membership answers and volume with every variable that
+    was NOT fixed on the way to this object supplied as a parameter (also default-valued ones), bound defaults."""
     need = sorted(obj.necessary_variables)
     bound = _bound_defaults(obj)
-    r = _snapshot(obj, dom_space, Pq, pspace, full, need)
+    r = _snapshot(obj, dom_space, Pq, pspace, full, need, fixed)
     return r + (bound,)
 
 
-def _snapshot(obj, dom_space, Pq, pspace, full, need):
-    vals = {v: full[v] for v in need if v in full}
+def _snapshot(obj, dom_space, Pq, pspace, full, need, fixed=()):
+    vals = {v: full[v] for v, _ in pspace if v in full and v not in fixed}
     try:
         ans = _answers(obj, dom_space, Pq, pspace, vals)
     except Exception as ex:
@@ -109,6 +111,7 @@ def run_c17(case):
                 far = np.abs(m) > G.TOL_FAR
                 truth = m > 0
             objs = [D0]
+            fixeds = [frozenset()]
             asts = [dom]
             theta = {}
             snaps = [snapshot(D0, dom_space, Pq, pspace, full)]
@@ -118,6 +121,7 @@ def run_c17(case):
                 for v, val in step["vals"].items():
                     vals[v] = torch.tensor([[float(val)]]) if step.get("as_tensor") else float(val)
                 src = objs[step.get("on", -1)] if step.get("on") is not None else objs[-1]
+                src_fixed = fixeds[step.get("on", -1)] if step.get("on") is not None else fixeds[-1]
                 src_ast = asts[step.get("on", -1)] if step.get("on") is not None else asts[-1]
                 try:
                     Dn = src(**vals)
@@ -127,6 +131,7 @@ def run_c17(case):
                     break
                 ast_n = G.subst(src_ast, {k: float(v) for k, v in step["vals"].items()})
                 objs.append(Dn)
+                fixeds.append(frozenset(src_fixed | set(step["vals"])))
                 asts.append(ast_n)
                 stats["steps_judged"] = stats.get("steps_judged", 0) + 1
                 log.append(sorted(step["vals"]))
@@ -196,13 +201,13 @@ def run_c17(case):
                                     msg=str(ex)[:160]))
                 # 5. every earlier domain is unchanged
                 for i, (o, s0) in enumerate(zip(objs[:-1], snaps)):
-                    s1 = snapshot(o, dom_space, Pq, pspace, full)
+                    s1 = snapshot(o, dom_space, Pq, pspace, full, fixeds[i])
                     if s1 != s0:
                         what = "necessary-variables" if s1[0] != s0[0] else ("membership" if s1[1] != s0[1] else (
                             "volume" if s1[2] != s0[2] else "bound-defaults-of-shape-functions"))
                         out.append(viol("C17", "original-unchanged", "earlier-domain-changed:" + what, "", index=i))
                         break
-                snaps.append(snapshot(Dn, dom_space, Pq, pspace, full))
+                snaps.append(snapshot(Dn, dom_space, Pq, pspace, full, fixeds[-1]))
         except Exception as ex:
             out.append(viol("C17", "run", "raises:" + type(ex).__name__, innermost_site(ex.__traceback__),
                             msg=traceback.format_exc()[-400:]))
